@@ -347,6 +347,225 @@ pub async fn run_side(ctx: Arc<Ctx>, side: Side, conn: Connection) {
     }
 }
 
+/// datagram payload i of `side`: 4-byte index then prf bytes
+fn dgram_payload(seed: u64, side: Side, idx: u32, len: u32) -> Vec<u8> {
+    let key = 0x6000_0000_0000_0000u64 | ((side == Side::Server) as u64) << 40 | idx as u64;
+    let mut v: Vec<u8> = (0..len as u64).map(|k| prf(seed, key, k)).collect();
+    for (i, b) in idx.to_be_bytes().iter().enumerate() {
+        if i < v.len() {
+            v[i] = *b;
+        }
+    }
+    v
+}
+
+/// Background actors: datagram sender / receiver and the operations parked for C17. They are not part of
+/// the workload (an unreliable datagram may never arrive); they must end when the connection ends.
+#[allow(deprecated)]
+pub fn spawn_background(ctx: &Arc<Ctx>, side: Side, conn: &Connection) {
+    let tag = if side == Side::Client { "c" } else { "s" };
+    let seed = ctx.case.seed;
+    for (di, spec) in ctx.case.dgrams.iter().enumerate().filter(|(_, d)| d.side == side) {
+        let (ctx, conn, spec) = (ctx.clone(), conn.clone(), spec.clone());
+        let name = format!("bg.{tag}.dgram_send{di}");
+        ctx.start_actor(&name);
+        tokio::spawn(async move {
+            let peer_max = if side == Side::Client { ctx.case.server.max_datagram } else { ctx.case.client.max_datagram } as u64;
+            let w = match conn.datagram_writer().await {
+                Ok(Ok(w)) => w,
+                Ok(Err(e)) => {
+                    if peer_max != 0 {
+                        ctx.violate("refusal", "writer-unsupported", format!("{name}: datagram_writer() refused ({e}) although the peer advertises max_datagram_frame_size {peer_max}"));
+                    }
+                    ctx.finish_actor(&name, true, format!("unsupported: {e}"));
+                    return;
+                }
+                Err(e) => {
+                    ctx.finish_actor(&name, true, format!("connection: {e}"));
+                    return;
+                }
+            };
+            if peer_max == 0 {
+                ctx.violate("refusal", "writer-granted", format!("{name}: datagram_writer() granted although the peer advertises max_datagram_frame_size 0"));
+            }
+            for (i, len) in spec.sizes.iter().enumerate() {
+                let payload = dgram_payload(seed, side, i as u32, *len);
+                let res = w.send_bytes(bytes::Bytes::from(payload));
+                // RFC 9221: the limit applies to the whole frame; the smallest encoding is type byte + payload
+                let fits = 1 + *len as u64 <= peer_max;
+                let t = ctx.now_ms();
+                match res {
+                    Ok(()) => {
+                        if !fits {
+                            ctx.violate("refusal", "oversize-accepted-for-send", format!("{name}: datagram of {len} bytes accepted, peer max_datagram_frame_size is {peer_max}"));
+                        }
+                        ctx.log.lock().unwrap().dgram_sent.push((side, i as u32, *len, t));
+                    }
+                    Err(e) => {
+                        let closed = ctx.log.lock().unwrap().terminated_at[(side == Side::Server) as usize].is_some();
+                        if fits && !closed {
+                            ctx.violate("refusal", "fitting-refused", format!("{name}: datagram of {len} bytes refused ({e}), peer max_datagram_frame_size is {peer_max}"));
+                        }
+                        if closed {
+                            break;
+                        }
+                    }
+                }
+                if spec.gap_ms > 0 {
+                    tokio::time::sleep(Duration::from_millis(spec.gap_ms as u64)).await;
+                }
+            }
+            ctx.finish_actor(&name, true, "");
+        });
+    }
+    let peer_sends = ctx.case.dgrams.iter().any(|d| d.side != side);
+    let hang_recv = ctx.case.hangers.iter().any(|h| h.side == side && h.kind == crate::HangKind::DgramRecv);
+    if peer_sends || hang_recv {
+        let (ctx, conn) = (ctx.clone(), conn.clone());
+        let name = format!("bg.{tag}.dgram_recv");
+        ctx.start_actor(&name);
+        tokio::spawn(async move {
+            let mut r = match conn.datagram_reader() {
+                Ok(Ok(r)) => r,
+                Ok(Err(e)) => {
+                    ctx.finish_actor(&name, true, format!("unsupported: {e}"));
+                    return;
+                }
+                Err(e) => {
+                    ctx.finish_actor(&name, true, format!("connection: {e}"));
+                    return;
+                }
+            };
+            let peer = if side == Side::Client { Side::Server } else { Side::Client };
+            let mut last_idx: Option<u32> = None;
+            loop {
+                match r.recv().await {
+                    Ok(data) => {
+                        let t = ctx.now_ms();
+                        if data.len() < 4 {
+                            // short payloads carry a truncated index: attribute by content of what the peer sent
+                            let ok = ctx.case.dgrams.iter().filter(|d| d.side == peer).any(|d| d.sizes.iter().enumerate().any(|(i, l)| *l as usize == data.len() && dgram_payload(seed, peer, i as u32, *l) == data[..]));
+                            if !ok {
+                                ctx.violate("payload", "short", format!("{name}: received a {}-byte datagram the peer never sent", data.len()));
+                            }
+                            continue;
+                        }
+                        let idx = u32::from_be_bytes([data[0], data[1], data[2], data[3]]);
+                        let expect = ctx.case.dgrams.iter().find(|d| d.side == peer).and_then(|d| d.sizes.get(idx as usize).map(|l| dgram_payload(seed, peer, idx, *l)));
+                        match expect {
+                            Some(p) if p == data[..] => {}
+                            Some(p) => ctx.violate("payload", "altered", format!("{name}: datagram {idx} received with {} bytes, sent with {} (merged, truncated or altered)", data.len(), p.len())),
+                            None => ctx.violate("payload", "unknown", format!("{name}: received datagram index {idx} the peer never sent")),
+                        }
+                        if last_idx.is_some_and(|l| idx <= l) {
+                            ctx.violate("order", "", format!("{name}: datagram {idx} delivered after {}", last_idx.unwrap()));
+                        }
+                        last_idx = Some(idx);
+                        ctx.log.lock().unwrap().dgram_rcvd.push((side, idx, data.len() as u32, t));
+                    }
+                    Err(e) => {
+                        ctx.finish_actor(&name, true, format!("ended: {e}"));
+                        return;
+                    }
+                }
+            }
+        });
+    }
+    for h in ctx.case.hangers.iter().filter(|h| h.side == side) {
+        use crate::HangKind::*;
+        let (ctx, conn) = (ctx.clone(), conn.clone());
+        let kind = h.kind;
+        if kind == DgramRecv {
+            continue;
+        }
+        // the listener keeps ONE waker per accept kind: a parked accept is only added where the workload
+        // itself has no acceptor of that kind (two concurrent accepts are not judged, DESIGN §7 S15)
+        let peer_opens = |bidi: bool| ctx.case.streams.iter().any(|s| s.opener != side && s.bidi == bidi);
+        if (kind == AcceptBi && peer_opens(true)) || (kind == AcceptUni && peer_opens(false)) {
+            continue;
+        }
+        let name = format!("bg.{tag}.hang_{kind:?}");
+        ctx.start_actor(&name);
+        tokio::spawn(async move {
+            let detail = match kind {
+                // one more accept than the peer will ever open streams
+                AcceptBi => loop {
+                    match conn.accept_bi_stream().await {
+                        Ok(_) => continue,
+                        Err(e) => break format!("{:?}", e.kind()),
+                    }
+                },
+                AcceptUni => loop {
+                    match conn.accept_uni_stream().await {
+                        Ok(_) => continue,
+                        Err(e) => break format!("{:?}", e.kind()),
+                    }
+                },
+                Handshaked => match conn.handshaked().await {
+                    Ok(()) => "ok".to_string(),
+                    Err(e) => format!("{:?}", e.kind()),
+                },
+                Terminated => format!("{:?}", conn.terminated().await.kind()),
+                OpenBiUntilBlocked => {
+                    let mut held = Vec::new();
+                    loop {
+                        match conn.open_bi_stream().await {
+                            Ok(Some(s)) if held.len() < 200 => held.push(s),
+                            Ok(_) => break "exhausted".to_string(),
+                            Err(e) => break format!("{:?}", e.kind()),
+                        }
+                    }
+                }
+                OpenUniUntilBlocked => {
+                    let mut held = Vec::new();
+                    loop {
+                        match conn.open_uni_stream().await {
+                            Ok(Some(s)) if held.len() < 200 => held.push(s),
+                            Ok(_) => break "exhausted".to_string(),
+                            Err(e) => break format!("{:?}", e.kind()),
+                        }
+                    }
+                }
+                DgramRecv => unreachable!(),
+            };
+            ctx.finish_actor(&name, true, detail);
+        });
+    }
+}
+
+/// After `close()` returned on this endpoint: every new operation must fail, promptly.
+#[allow(deprecated)]
+async fn later_ops(ctx: Arc<Ctx>, side: Side, conn: Connection) {
+    let tag = if side == Side::Client { "c" } else { "s" };
+    let name = format!("bg.{tag}.later_ops");
+    ctx.start_actor(&name);
+    let mut oks = Vec::new();
+    if let Ok(Some(_)) = conn.open_bi_stream().await {
+        oks.push("open_bi_stream");
+    }
+    if let Ok(Some(_)) = conn.open_uni_stream().await {
+        oks.push("open_uni_stream");
+    }
+    if conn.accept_bi_stream().await.is_ok() {
+        oks.push("accept_bi_stream");
+    }
+    if conn.accept_uni_stream().await.is_ok() {
+        oks.push("accept_uni_stream");
+    }
+    if let Ok(Ok(w)) = conn.datagram_writer().await {
+        if w.send_bytes(bytes::Bytes::from_static(b"after close")).is_ok() {
+            oks.push("datagram send");
+        }
+    }
+    if conn.handshaked().await.is_ok() && ctx.log.lock().unwrap().handshaked_at[(side == Side::Server) as usize].is_none() {
+        oks.push("handshaked");
+    }
+    for op in &oks {
+        ctx.violate("ok-after-close", op, format!("{tag}: {op} succeeded after close() had returned"));
+    }
+    ctx.finish_actor(&name, true, "");
+}
+
 fn watch_terminated(ctx: Arc<Ctx>, idx: usize, conn: Connection) {
     tokio::spawn(async move {
         let e = conn.terminated().await;
@@ -380,6 +599,7 @@ pub async fn drive(case: &Case) -> Outcome {
     let factory: Arc<dyn ProductIO> = Arc::new(net.factory());
     let router = Arc::new(QuicRouter::default());
     let captured = Arc::new(crate::qlogcap::Captured::default());
+    let legacy_store = crate::qlogcap::MemStorage::default();
     let qlog: Arc<dyn qevent::telemetry::QLog + Send + Sync> = {
         use crate::{QlogMode, qlogcap::CaptureLog};
         let net2 = net.clone();
@@ -398,7 +618,7 @@ pub async fn drive(case: &Case) -> Outcome {
             QlogMode::CaptureRaw => Arc::new(CaptureLog { sink: captured.clone(), raw: true, filter: None, discard: false, on_event: Some(on_event) }),
             QlogMode::Filtered => Arc::new(CaptureLog { sink: captured.clone(), raw: false, filter: Some(case.seed | 1), discard: false, on_event: None }),
             QlogMode::DiscardAll => Arc::new(CaptureLog { sink: captured.clone(), raw: false, filter: None, discard: true, on_event: None }),
-            QlogMode::Legacy => Arc::new(NoopLogger),
+            QlogMode::Legacy => Arc::new(qevent::telemetry::handy::LegacySeqLogger::new(legacy_store.clone())),
         }
     };
 
@@ -443,6 +663,7 @@ pub async fn drive(case: &Case) -> Outcome {
                         })
                     };
                     watch_terminated(ctx.clone(), 1, conn.clone());
+                    spawn_background(&ctx, Side::Server, &conn);
                     run_side(ctx.clone(), Side::Server, conn).await;
                     let _ = hs.await;
                 }
@@ -483,6 +704,32 @@ pub async fn drive(case: &Case) -> Outcome {
         })
     };
     watch_terminated(ctx.clone(), 0, conn.clone());
+    spawn_background(&ctx, Side::Client, &conn);
+    // scheduled close (C17)
+    let closer = {
+        let (ctx, conn, slot) = (ctx.clone(), conn.clone(), server_conn.clone());
+        let kind = case.close;
+        tokio::spawn(async move {
+            let (who, at): (Vec<Side>, u32) = match kind {
+                CloseKind::At { who, at_ms } => (vec![who], at_ms),
+                CloseKind::Both { at_ms } => (vec![Side::Client, Side::Server], at_ms),
+                _ => return,
+            };
+            tokio::time::sleep(Duration::from_millis(at as u64)).await;
+            for side in who {
+                let c = if side == Side::Client { Some(conn.clone()) } else { slot.lock().unwrap().clone() };
+                let Some(c) = c else { continue };
+                let t = ctx.now_ms();
+                let r = c.close("scheduled close", 42);
+                {
+                    let mut l = ctx.log.lock().unwrap();
+                    l.close_called_at[(side == Side::Server) as usize] = Some(t);
+                    l.events.push((t, if side == Side::Client { "c.conn".into() } else { "s.conn".into() }, format!("close():{}", r.is_ok()), 0));
+                }
+                tokio::spawn(later_ops(ctx.clone(), side, c));
+            }
+        })
+    };
     let client_task = tokio::spawn(run_side(ctx.clone(), Side::Client, conn.clone()));
 
     // workload phase
@@ -514,30 +761,55 @@ pub async fn drive(case: &Case) -> Outcome {
     let completed_at = ctx.now_ms();
 
     // close phase
-    let mut terminated_ok = true;
-    if completed && case.close == CloseKind::AfterWorkload {
-        let _ = conn.close("done", 0);
-        let sc = server_conn.lock().unwrap().clone();
-        let t_c = tokio::time::timeout(Duration::from_secs(120), conn.terminated()).await;
-        if t_c.is_err() {
-            terminated_ok = false;
-            ctx.violate("bounded-failure", "terminated-client", "client terminated() still pending 120 s after close()".into());
+    let mut who_closes: Vec<usize> = Vec::new();
+    match case.close {
+        CloseKind::AfterWorkload if completed => {
+            let t = ctx.now_ms();
+            let _ = conn.close("done", 0);
+            ctx.log.lock().unwrap().close_called_at[0] = Some(t);
+            tokio::spawn(later_ops(ctx.clone(), Side::Client, conn.clone()));
+            who_closes.push(0);
         }
-        if let Some(sc) = sc {
-            let t_s = tokio::time::timeout(Duration::from_secs(120), sc.terminated()).await;
-            if t_s.is_err() {
-                terminated_ok = false;
-                ctx.violate("bounded-failure", "terminated-server", "server terminated() still pending 120 s after the client closed".into());
-            }
-        }
+        CloseKind::At { who, .. } => who_closes.push((who == Side::Server) as usize),
+        CloseKind::Both { .. } => who_closes.extend([0, 1]),
+        _ => {}
     }
-    let _ = terminated_ok;
+    let _ = closer.await;
+    // wait until both endpoints have terminated (bounded), then a grace period in which every parked
+    // operation has to be released
+    let idle_eff = [case.client.idle_ms, case.server.idle_ms].into_iter().filter(|i| *i > 0).min().unwrap_or(0) as u64;
+    let wait_term = Duration::from_millis(if idle_eff > 0 { idle_eff + 60_000 } else { 60_000 });
+    let sc = server_conn.lock().unwrap().clone();
+    let both = async {
+        conn.terminated().await;
+        if let Some(sc) = &sc {
+            sc.terminated().await;
+        }
+    };
+    let remaining = cap.saturating_sub(Instant::now().saturating_duration_since(start));
+    let _ = tokio::time::timeout(wait_term.min(remaining.max(Duration::from_secs(1))), both).await;
+    let rtt = Duration::from_millis((case.net.latency_ms[0] + case.net.latency_ms[1] + 2 * case.net.jitter_ms) as u64);
+    let release_bound = Duration::from_millis(1_000) + 6 * rtt;
+    tokio::time::sleep(release_bound + Duration::from_millis(1)).await;
     client_hs.abort();
 
     // verdicts
     let l = log.lock().unwrap();
     let mut th = TraceHash::default();
     crate::hash_wire(&net, &mut th);
+    let wire_hash = th.get();
+    // canonical application trace: events of different actors completing at the same virtual instant have
+    // no defined order (it follows hash-map iteration inside the stack); per-actor order is kept
+    let mut canon: Vec<&(u64, String, String, u64)> = l.events.iter().collect();
+    canon.sort_by(|x, y| (x.0, &x.1).cmp(&(y.0, &y.1)));
+    let mut ah = TraceHash::default();
+    for (t, a, w, n) in canon {
+        ah.add(*t);
+        ah.add_str(a);
+        ah.add_str(w);
+        ah.add(*n);
+    }
+    crate::LAST_HASHES.with(|h| h.set((wire_hash, ah.get())));
     for (t, a, w, n) in &l.events {
         th.add(*t);
         th.add_str(a);
@@ -554,6 +826,7 @@ pub async fn drive(case: &Case) -> Outcome {
         .keys()
         .filter(|k| !l.finished.contains_key(*k) && !(case.profile == Profile::Unbounded && k.as_str() == "s.accept_conn"))
         .filter(|k| !(k.as_str() == "s.accept_conn" && l.terminated_at[0].is_some()))
+        .filter(|k| !k.starts_with("bg."))
         .cloned()
         .collect();
     // neither endpoint may conclude that its peer broke the protocol: the peer is the same stack and the
@@ -569,7 +842,7 @@ pub async fn drive(case: &Case) -> Outcome {
     let g = net.inner.lock().unwrap();
     if std::env::var("NETSIM_DUMP_QLOG").is_ok() {
         for (who, server) in [("client", false), ("server", true)] {
-            for e in captured.side(server).iter().take(std::env::var("NETSIM_DUMP_QLOG").ok().and_then(|s| s.parse().ok()).unwrap_or(60)) {
+            for (_, e) in captured.side(server).iter().take(std::env::var("NETSIM_DUMP_QLOG").ok().and_then(|s| s.parse().ok()).unwrap_or(60)) {
                 eprintln!("QLOG {who} {}", serde_json::to_string(e).unwrap_or_default());
             }
         }
@@ -631,9 +904,21 @@ pub async fn drive(case: &Case) -> Outcome {
         out.stats.add(k, *v);
     }
     drop(g);
+    crate::oracles::check_termination(&mut out, case, &l, &net, &who_closes, release_bound.as_millis() as u64, ctx.now_ms());
+    crate::oracles::check_datagrams(&mut out, case, &l, &net);
+    if case.qlog == crate::QlogMode::Legacy {
+        let files = legacy_store.files.lock().unwrap();
+        let bytes: usize = files.iter().map(|(_, b)| b.lock().unwrap().len()).sum();
+        out.stats.add("legacy_sqlog_bytes", bytes as u64);
+        crate::oracles::check_legacy_text(&mut out, &files);
+    }
+    if matches!(case.qlog, crate::QlogMode::Capture | crate::QlogMode::CaptureRaw | crate::QlogMode::Filtered) {
+        crate::oracles::check_event_wellformed(&mut out, &captured);
+    }
     if case.qlog == crate::QlogMode::Capture || case.qlog == crate::QlogMode::CaptureRaw {
         crate::oracles::check_packet_roundtrip(&mut out, &captured);
         crate::oracles::check_amplification(&mut out, &net);
+        crate::oracles::check_close_qlog(&mut out, &captured);
     }
     let g = net.inner.lock().unwrap();
     out.stats.add("datagrams_c2s", g.ordinals[0] as u64);
